@@ -235,11 +235,19 @@ func buildTS(r *rng, sch *ttxSchedule, mux ttxMux) ([]byte, []ttxCue, error) {
 	if _, err := m.WriteTables(); err != nil {
 		return nil, nil, err
 	}
+	// one stream in three carries some PES packets without PTS: their presentation time is then the PCR of the
+	// adaptation field of their first TS packet (same instant)
+	pcrStream := r.chance(1, 3)
 	writePES := func(p uint16, pts int64, data []byte) error {
-		_, err := m.WriteData(&astits.MuxerData{PID: p, PES: &astits.PESData{
+		d := &astits.MuxerData{PID: p, PES: &astits.PESData{
 			Header: &astits.PESHeader{StreamID: astits.StreamIDPrivateStream1, OptionalHeader: &astits.PESOptionalHeader{
 				MarkerBits: 2, PTSDTSIndicator: astits.PTSDTSIndicatorOnlyPTS, PTS: &astits.ClockReference{Base: pts * 90}}},
-			Data: data}})
+			Data: data}}
+		if pcrStream && p == pid && r.chance(1, 2) {
+			d.PES.Header.OptionalHeader = &astits.PESOptionalHeader{MarkerBits: 2, PTSDTSIndicator: astits.PTSDTSIndicatorNoPTSOrDTS}
+			d.AdaptationField = &astits.PacketAdaptationField{HasPCR: true, PCR: &astits.ClockReference{Base: pts * 90}}
+		}
+		_, err := m.WriteData(d)
 		return err
 	}
 	hopts := ttxHeaderOpts{subtitle: true, serial: sch.Serial, charset: sch.Charset}
@@ -458,7 +466,7 @@ func init() {
 }
 
 func suiteTeletext(R *runner, r *rng) {
-	R.rule("teletext: ground-truth page schedules (1..5 instances of one page, 1..4 rows at rows 1..24, boxed text over G0 incl. the national option positions of the English/French/German sets and of the option-less code 7, the national option changing between instances and between successive reads of the same process, colour and size codes, unboxed junk, erase pages) x multiplexing (1..3 units per PES or one PES per instance, distractor pages in other magazines and a later page of the same magazine, stuffing / non-subtitle / wrong-framing units, X/26 and 8/30 packets, a second PID without teletext descriptor) x reader options (page given or auto-detected, PID given or auto-detected), muxed with the astits muxer and the harness's own Hamming 8/4 / parity / bit-order encoder; oracle: cues (start = PTS of the instance's header, end = PTS of the next header / last PTS, relative to the first PTS; boxed text of the rows in row order split at colour/size codes); non-trivial = at least one cue expected")
+	R.rule("teletext: ground-truth page schedules (1..5 instances of one page, 1..4 rows at rows 1..24, boxed text over G0 incl. the national option positions of the English/French/German sets and of the option-less code 7, the national option changing between instances and between successive reads of the same process, colour and size codes, unboxed junk, erase pages) x multiplexing (1..3 units per PES or one PES per instance, distractor pages in other magazines and a later page of the same magazine, stuffing / non-subtitle / wrong-framing units, X/26 and 8/30 packets, a second PID without teletext descriptor, PES packets without PTS timed by the PCR of their first TS packet) x reader options (page given or auto-detected, PID given or auto-detected), muxed with the astits muxer and the harness's own Hamming 8/4 / parity / bit-order encoder; oracle: cues (start = PTS of the instance's header, end = PTS of the next header / last PTS, relative to the first PTS; boxed text of the rows in row order split at colour/size codes); non-trivial = at least one cue expected")
 	// self-test of the encoder against the library's decoding tables is implicit: a wrong code yields no text
 	N := 300
 	if R.tier == "thorough" {
